@@ -312,6 +312,12 @@ RewardVestsOnSchedule(pre, e) ==
      IN  (BIsZero(M1.debt) /\ BIsZero(M2.debt) /\ BIsPos(got)) =>
             \A ep \in {x \in eps : x >= pre.epoch} :
                 BEq(BSub(VestAt(M2.vest, ep), VestAt(M1.vest, ep)), SchedAt(sc, ep))
+\* "... and the creation deposit vest linearly over 180 days in daily steps": a miner that has done nothing yet holds
+\* exactly the schedule of its deposit, counted from the epoch it was created at
+DepositVestsOnSchedule(M) ==
+  LET sc == Sched(M.locked, M.createdAt, M.pps)
+      eps == {M.vest[i][1] : i \in Idx(M.vest)} \cup {sc[i][1] : i \in Idx(sc)}
+  IN  \A ep \in eps : BEq(VestAt(M.vest, ep), SchedAt(sc, ep))
 \* "no part becomes withdrawable before its vesting epoch except to pay the miner's own penalties":
 \* the not-yet-vested part of the table never shrinks unless funds were burnt or debt changed in the step
 Unvested(v, t) == BSumSeq([i \in Idx(v) |-> IF v[i][1] >= t THEN v[i][2] ELSE BZero])
